@@ -224,6 +224,22 @@ func runC19(root string, c C19Case) (nontrivial bool, v *Violation) {
 			if !noticed {
 				return true, violation("C19", "missed-notification", "recreated-directory", "op %d: %s/mine was removed and made again; in-place writes to mine/nested.toml every 100 ms for %v produced no notification", i, c12Dirs[op.Dir], c19Live)
 			}
+			// ... and so must a modification one level further down: the tree arrived as a whole (cp -r, a checkout, an unpacked
+			// archive), its sub-directories were there before the watcher could hear of the top one
+			noticed = false
+			deadline = time.Now().Add(c19Live)
+			for !noticed && time.Now().Before(deadline) && !closed {
+				if wv := write(op.Dir, "mine/deeper/still.toml", ""); wv != nil {
+					return false, wv
+				}
+				noticed = recv(100 * time.Millisecond)
+			}
+			if closed {
+				return true, violation("C19", "stream-ended-early", "", "the notification stream ended although the context is still live")
+			}
+			if !noticed {
+				return true, violation("C19", "missed-notification", "recreated-tree", "op %d: %s/mine was removed and made again together with its sub-directory; writes to mine/nested.toml are noticed, in-place writes to mine/deeper/still.toml every 100 ms for %v produced no notification", i, c12Dirs[op.Dir], c19Live)
+			}
 			nontrivial = true
 			classify("sub-directory removed and made again")
 		case "series":
